@@ -232,3 +232,35 @@ def dominated_by_true_edge(b, bb, owner, name, want_true=True):
 def require(cond, msg):
     if not cond:
         raise AnchorMissing(msg)
+
+
+def deep_atoms(F, b, start, depth=4, **kw):
+    """atoms of `start` in body b, continued through closure captures into the creating body:
+    an ('upvar', name) atom of a closure body is expanded with the atoms of the operand captured
+    for `name` at every site that constructs the closure."""
+    at = set(b.atoms(start, **kw))
+    if depth <= 0 or b.kind != "Closure":
+        return at
+    ups = {a[1] for a in at if a[0] == "upvar"}
+    if not ups:
+        return at
+    parent = F.bodies.get(b.parent)
+    if parent is None:
+        return at
+    for (bb, i, cdef, ops, fields) in parent.closures_created():
+        if cdef != b.id:
+            continue
+        for name in ups:
+            if name in fields:
+                op = ops[fields.index(name)]
+                at |= {("via_upvar",) + tuple(x) for x in ()}
+                at |= deep_atoms(F, parent, op, depth - 1, **kw)
+    return at
+
+
+def has_call(at, *sufs):
+    return any(a[0] == "call" and ends(a[1], *sufs) for a in at)
+
+
+def has_field(at, owner, name):
+    return any(a[0] == "field" and a[2] == name and ends(a[1], owner) for a in at)
